@@ -251,7 +251,7 @@ theorem cpUnop_ok (hs : Generic s = true) (p : CP) (hp : p.sys = s) (typ : Nat) 
         have hbv := C11.parse_bvw s hs tok2 version hv
         split
         · exact vrok_fail _ (Or.inr rfl)
-        · exact vrok_none _ (by simp [CP.setErr, hp])
+        · exact vrok_none _ (by simp [CP.setErr])
         · rename_i spans hspans
           intro vr q h
           injection h with h
@@ -298,7 +298,7 @@ theorem cpPlain_ok (hs : Generic s = true) (p : CP) (hp : p.sys = s) (typ : Nat)
     have hbv := C11.parse_bvw s hs tok version hv
     split
     · exact vrok_fail _ (Or.inr rfl)
-    · exact vrok_none _ (by simp [CP.setErr, hp])
+    · exact vrok_none _ (by simp [CP.setErr])
     · rename_i sp hsp
       intro vr q h
       injection h with h
@@ -324,10 +324,10 @@ theorem cpHyphen_ok (hs : Generic s = true) (p : CP) (hp : p.sys = s) (tok r2 : 
           have hbh := C11.parse_bvw s hs tok3 hi hhi
           split
           · split
-            · exact vrok_none _ (by simp [CP.setErr, hp])
+            · exact vrok_none _ (by simp [CP.setErr])
             · split
               · exact vrok_fail _ (Or.inr rfl)
-              · exact vrok_none _ (by simp [CP.setErr, hp])
+              · exact vrok_none _ (by simp [CP.setErr])
               · rename_i sp hsp
                 intro vr q h
                 injection h with h
